@@ -2209,9 +2209,12 @@ func (fc *FnCtx) contractMods(call *ast.CallExpr, f *types.Func, ct *Contract, m
 // caller's variables and the callee's parameter names.
 func (fc *FnCtx) checkCallPre(st *State, call *ast.CallExpr, f *types.Func, recv *Val, args []Val) {
 	r := fc.root()
-	if r.ct == nil || len(r.ct.CallPre) == 0 || fc != r {
+	if r.ct == nil || len(r.ct.CallPre) == 0 {
 		return
 	}
+	// calls made by contract-less callees that are executed inline count as calls of the function under contract: the
+	// clause is evaluated over the root's variables (only the arguments come from the call site)
+	inlined := fc != r
 	name := f.Name()
 	hasAny := false
 	for k := range r.ct.CallPre {
@@ -2260,8 +2263,14 @@ func (fc *FnCtx) checkCallPre(st *State, call *ast.CallExpr, f *types.Func, recv
 		}
 	}
 	for _, key := range []string{name, fmt.Sprintf("%s.%d", name, ord), funcKey(f.Origin(), nil)} {
+		if inlined && key == fmt.Sprintf("%s.%d", name, ord) {
+			continue
+		}
 		for i, cl := range r.ct.CallPre[key] {
 			env := &SpecEnv{fc: fc, st: st, old: r.entry, scope: scope, oldScope: fc.paramsEntry, pkg: fc.ctPkg(), useVars: true}
+			if inlined {
+				env = &SpecEnv{fc: r, st: st, old: r.entry, scope: scope, oldScope: r.paramsEntry, pkg: r.ctPkg(), useVars: true}
+			}
 			v := fc.safeSpec(env, cl.E, cl.Text)
 			fc.assertNamed(st, "emit", key+"."+clauseName(cl, i), v.T, "whenever "+key+" is called: "+cl.Text, call.Pos())
 		}
